@@ -115,8 +115,10 @@ REG['C06'] = dict(
          'bounding box of the blocks and the four margins cover the rest of the page; word confidences are medians of values in [0,1] '
          '(C16); composition theorem alto_confidence_total: whenever the forced alignment of a line succeeds (C05) on a matrix of '
          'per-frame distributions, the per-character confidences are defined on the aligned positions, one per character, each in '
-         '[0,1] (CTC and transformer dispatch). Correspondence: order conversion exhaustive over a 9-symbol class alphabet + random strings (exact); words/SP count '
-         'and print-space/margin integers of the real to_altoxml_string vs the model; oracle on the real export and re-import.',
+         '[0,1] (CTC and transformer dispatch); RE-IMPORT: from_altoxml joins the String contents by single blanks and splitting that again returns '
+         'exactly the exported words, for every transcription (reimport_words, reimport_roundtrip). Correspondence: order conversion exhaustive over a 9-symbol class alphabet + random strings (exact); words/SP count '
+         'and print-space/margin integers of the real to_altoxml_string vs the model; the re-imported transcription of every line vs the model; oracle on the '
+         'real export and re-import, incl. a second export after the transcriptions were edited (the posteriors stay).',
     note='Trusted / not decided: lxml; String/word GEOMETRY beyond "integer-valued" (get_crop_inputs, cf. C10); which lines align '
          '(C05) is an input of the word model. Observation: word confidences of lines with repeated blanks are taken from a shifted '
          'slice (still in [0,1]).',
